@@ -313,16 +313,27 @@ def _smul_path(p, q, lo, hi):
         b = SI.var("b", 0, q + 3)
         wit = lambda env: {"p": p, "q": q, "a": env["a"], "b": env["b"]}  # noqa
         G = m.G
+
+        def attempt(label, f, want_fn):
+            """an exception from the implementation on valid operands is a violation, not a harness error"""
+            try:
+                got = f()
+            except Exception as ex:
+                check(False, f"{label}: raised {type(ex).__name__}", witness=wit)
+                return None
+            check(_tup(got) == want_fn(), label, witness=wit)
+            return got
         aG = a * G
         av = core.concretize(a)  # the double-and-add loop has decided every bit of a mod q: a is fixed up to the path
         bv = core.concretize(b)
-        want = ref_mul(p, av % q, t.g)
-        check(_tup(aG) == want, "a*G differs from reference double-and-add of a mod q", witness=wit)
-        bG = bv * G
-        check(_tup(aG + bG) == ref_mul(p, (av + bv) % q, t.g), "(a+b)G != aG + bG", witness=wit)
-        check(_tup(bv * aG) == ref_mul(p, (av * bv) % q, t.g), "b(aG) != (ab)G", witness=wit)
-        check((q * aG).x is None, "q*P is not the point at infinity", witness=wit)
-        check(_tup(aG + bv) == ref_mul(p, (av + bv) % q, t.g), "point + int shorthand differs from P + bG", witness=wit)
+        check(_tup(aG) == ref_mul(p, av % q, t.g), "a*G differs from reference double-and-add of a mod q", witness=wit)
+        bG = attempt("b*G", lambda: bv * G, lambda: ref_mul(p, bv % q, t.g))
+        if bG is not None:
+            attempt("(a+b)G != aG + bG", lambda: aG + bG, lambda: ref_mul(p, (av + bv) % q, t.g))
+        attempt("b(aG) != (ab)G", lambda: bv * aG, lambda: ref_mul(p, (av * bv) % q, t.g))
+        attempt("(-b)(aG) != (-ab)G", lambda: (-bv) * aG, lambda: ref_mul(p, (-av * bv) % q, t.g))
+        attempt("q*P is not the point at infinity", lambda: q * aG, lambda: None)
+        attempt("point + int shorthand differs from P + bG", lambda: aG + bv, lambda: ref_mul(p, (av + bv) % q, t.g))
         return "ok"
     finally:
         t.close()
@@ -342,19 +353,21 @@ def replay_smul(w):
     g = curve_points(p)[0]
     m.G = m.S256Point(*g)
     try:
-        aG = a * m.G
-        bG = b * m.G
         bad = []
-        if _tup(aG) != ref_mul(p, a % q, g):
-            bad.append("aG")
-        if _tup(aG + bG) != ref_mul(p, (a + b) % q, g):
-            bad.append("(a+b)G")
-        if _tup(b * aG) != ref_mul(p, a * b % q, g):
-            bad.append("b(aG)")
-        if (q * aG).x is not None:
-            bad.append("qP")
-        if _tup(aG + b) != ref_mul(p, (a + b) % q, g):
-            bad.append("P+int")
+
+        def attempt(label, f, want):
+            try:
+                if _tup(f()) != want:
+                    bad.append(label)
+            except Exception as ex:
+                bad.append(f"{label} raised {ex!r}")
+        aG = a * m.G
+        attempt("aG", lambda: a * m.G, ref_mul(p, a % q, g))
+        attempt("(a+b)G", lambda: aG + b * m.G, ref_mul(p, (a + b) % q, g))
+        attempt("b(aG)", lambda: b * aG, ref_mul(p, a * b % q, g))
+        attempt("(-b)(aG)", lambda: (-b) * aG, ref_mul(p, (-a * b) % q, g))
+        attempt("qP", lambda: q * aG, None)
+        attempt("P+int", lambda: aG + b, ref_mul(p, (a + b) % q, g))
         return {"violated": bool(bad), "observed": f"F_{p} order {q} a={a} b={b}: {bad}"}
     finally:
         m.P, m.N, m.G = saved
